@@ -11,6 +11,7 @@ import (
 	"context"
 	"encoding/binary"
 	"encoding/json"
+	"errors"
 	"fmt"
 	"hash/crc32"
 	"math/rand/v2"
@@ -128,8 +129,11 @@ func TestC12(t *testing.T) {
 	if r.Only < 0 {
 		racingLookups(t, r)
 		rollbacks(t, r)
+		for i := 0; i < 24; i++ {
+			afterClose(t, r, i)
+		}
 	}
-	r.Require("rollback_polls", "handles_from_racing_lookups", "reads_validated", "reads_after_close", "polls_completed", "lookups_during_reads", "expiry_sweeps", "parked_probes_completed", "reader_serial_transitions", "read_after_poll_checks", "handles_obtained_during_poll")
+	r.Require("reads_after_close_with_cache_fault", "rollback_polls", "handles_from_racing_lookups", "reads_validated", "reads_after_close", "polls_completed", "lookups_during_reads", "expiry_sweeps", "parked_probes_completed", "reader_serial_transitions", "read_after_poll_checks", "handles_obtained_during_poll")
 	r.Rule("stress repetitions: 16 reader goroutines over handles of 3 declared + up to 4 looked-up secrets, concurrent with a background poller on a fast ticker, explicit Refresh callers, a service that keeps installing new values, lookups of fresh names, expiry sweeps driven by an injected clock, then Close with readers continuing; every read validated. Parked-request probes: while a poll/lookup/initial request is parked in the service, every handle is called 100 times. Distinct = (reader serial transition kind x concurrent event) and probe kinds")
 }
 
@@ -700,4 +704,95 @@ func rollbacks(t *testing.T, r *evid.Run) {
 		st.Close()
 	}
 	r.Distinct("rollback then poll")
+}
+
+// afterClose: a handle keeps answering after the store has been closed - also when the last cache write,
+// the one Close performs, fails (or is slow, or succeeds), with and without a poller.
+func afterClose(t *testing.T, r *evid.Run, idx int) {
+	rng := r.Rand(uint64(77_000 + idx))
+	w := &world{svc: fakesvc.New(), rng: rng, ver: map[string]uint32{}, served: map[string]map[uint64]string{}}
+	svc := w.svc
+	names := []string{"ac/one", "ac/two"}
+	for _, n := range names {
+		w.bump(n)
+	}
+	cacheMode := []string{"write fails at close", "write fails from the first poll on", "healthy", "none"}[idx%4]
+	poller := (idx/4)%2 == 0
+	closing := atomic.Bool{}
+	cache := &fakesvc.MonCache{}
+	cache.WriteErr = func(n int) error {
+		switch {
+		case cacheMode == "write fails at close" && closing.Load(), cacheMode == "write fails from the first poll on" && n > 0:
+			return errors.New("injected: cache write failed")
+		}
+		return nil
+	}
+	cfg := setec.StoreConfig{Client: svc, Secrets: names, AllowLookup: true, Logf: func(string, ...any) {}}
+	if cacheMode != "none" {
+		cfg.Cache = cache
+	}
+	if poller {
+		cfg.PollInterval = time.Hour
+	} else {
+		cfg.PollInterval = -1
+	}
+	st, err := setec.NewStore(context.Background(), cfg)
+	if err != nil {
+		t.Fatalf("NewStore: %v", err)
+	}
+	handles := map[string]setec.Secret{}
+	for _, n := range names {
+		handles[n] = st.Secret(n)
+	}
+	st.Refresh(context.Background())
+	closing.Store(true)
+	closed := make(chan struct{})
+	go func() { st.Close(); close(closed) }()
+	done := make(chan struct{})
+	go func() {
+		defer close(done)
+		<-closed
+		for i := 0; i < 50; i++ {
+			for n, h := range handles {
+				if name, _, ok := parse(h.Get()); !ok || name != n {
+					r.Violation("torn-value", idx, fmt.Sprintf("after-close case %d: handle of %q returned an invalid value", idx, n), nil)
+					return
+				}
+				r.Count("reads_after_close_with_cache_fault", 1)
+			}
+		}
+	}()
+	r.Eval(1)
+	r.Distinct(fmt.Sprintf("after close: cache %s, poller=%t", cacheMode, poller))
+	select {
+	case <-done:
+	case <-time.After(5 * time.Second):
+		stuck := 0
+		var dump string
+		for s := 0; s < 3; s++ {
+			buf := make([]byte, 1<<20)
+			buf = buf[:runtime.Stack(buf, true)]
+			dump = string(buf)
+			for _, g := range strings.Split(dump, "\n\n") {
+				if strings.Contains(g, "c12.afterClose.func") && strings.Contains(g, "sync.(*Mutex).Lock") && strings.Contains(g, "client/setec.(*Store)") {
+					stuck++
+					break
+				}
+			}
+			time.Sleep(300 * time.Millisecond)
+		}
+		select {
+		case <-done:
+			r.Inconclusive(fmt.Sprintf("after-close case %d: slow but finished", idx))
+		default:
+			if stuck == 3 {
+				if len(dump) > 6000 {
+					dump = dump[:6000]
+				}
+				r.Violation("handle-blocks-after-close", idx, fmt.Sprintf("after-close case %d (cache: %s, poller=%t): handle calls made after Close (or Close itself) never return: blocked on the store mutex in 3 consecutive samples", idx, cacheMode, poller), map[string]any{"stacks": dump})
+			} else {
+				r.Inconclusive(fmt.Sprintf("after-close case %d: not finished, but nobody is on the store mutex", idx))
+			}
+		}
+	}
 }
